@@ -1,7 +1,7 @@
 """Per-property decision procedures (DESIGN.md section 4)."""
 import json, os, subprocess, sys
 from .core import Run, Infra, VERIF, from_cps
-from .families import (Family, ApiFamily, HostFamily, BASES_ALL, BASES_MAIN, filler_letter, filler_digit, filler_nonascii, rng,
+from .families import (Family, ApiFamily, HostFamily, CodecFamily, BASES_ALL, BASES_MAIN, filler_letter, filler_digit, filler_nonascii, rng,
                        SETTER_VALUES, ALL_SETTER_OPS, STARTS_ALL, sub_ops)
 from . import findings
 
@@ -20,6 +20,8 @@ def describe_mismatch(m):
                 e, g = from_cps(e), from_cps(g)
             return "parse %r%s via %s: %s differ (first: %s spec=%r code=%r)" % (from_cps(ln["in"]), base, m["entry"], ",".join(m["keys"]), k, e, g)
         return "parse %r%s via %s: %s" % (from_cps(ln["in"]), base, m["entry"], m["what"])
+    if ln.get("t") not in ("h", None) or "steps" not in ln:
+        return "%s line %s: %s exp=%r got=%r" % (ln.get("t"), json.dumps(ln)[:300], m.get("what"), m.get("exp"), m.get("got"))
     steps = ln.get("steps", [])
     hist = "; ".join("%s%s[h%d](%s%s)" % (s["op"], "." + s["n"] if s.get("n") else "", s["h"], repr(from_cps(s.get("a") or [])),
                                          "," + repr(from_cps(s["b"])) if s.get("b") else "") for s in steps[:m.get("step", len(steps))])
@@ -492,3 +494,34 @@ def check_c09(run):
                       "in https and file URLs against the specification; relational part: for every base host (ASCII, mapped, ignored, bidi, joiner, full-width, ACE) TLC generates all "
                       "spellings with up to 2-3 varied code points (case flips, whole-code-point percent-encoding in either hex case) and the real hostnames of a class must coincide, "
                       "be ASCII-only, lower case, forbidden-free, with localhost -> empty host for file")
+
+
+# --------------------------------------------------------------------------------------------
+# C10 - percent-encode sets and codec laws
+# --------------------------------------------------------------------------------------------
+def check_c10(run):
+    run.build_harness()
+    run.selftest()
+    q = run.tier == "quick"
+    r = rng(run.seed, "c10")
+    U2, U3, U4 = r.choice([0xE9, 0xDF, 0x3A9]), r.choice([0x20AC, 0x4E2D, 0xFFFD]), r.choice([0x1F600, 0x10348, 0x10FFFF])
+    member = r.choice([0x20, 0x22, 0x3C])
+    alphabet = [37, 52, r.choice([0x41, 0x66, 0x46]), 0x67, member, 0x7E, U2, U3, U4, 0x7F]
+    sets = ["SetC0", "SetFragment", "SetQuery", "SetSpecialQuery", "SetPath", "SetUserinfo", "SetAdd(SetPath, {37})", "SetDel(SetQuery, {34})", "SetAdd(SetC0, {124})",
+            "SetAdd(SetUserinfo, {37, 43})"]
+    bits = [[0x7C], [0x25], [0x41, 0x7E], [0x22], [0x20]]
+    fams = [
+        CodecFamily("sets", "sets", invariants=["TablesMatchStandard"]),
+        CodecFamily("derive", "derive", depth=2 if q else 3, derive_bits=bits if not q else bits[:4], invariants=["NamedUntouched"], properties=["CopyOnDerive"]),
+        CodecFamily("codec", "codec", alphabet=alphabet, maxlen=3 if q else 4, codec_sets=sets, invariants=["CodecLaws"]),
+        CodecFamily("codec_pct", "codec", alphabet=[37, 50, 53, 0x42, 0x62, 0x67], maxlen=5 if q else 7, codec_sets=["SetPath", "SetAdd(SetPath, {37})", "SetC0"], invariants=["CodecLaws"]),
+    ]
+    for fam in fams:
+        mod = fam.write(run.scratch)
+        S, M, st = run.tlc_replay(mod, fam.name, cfg=mod + ".cfg", tool="codec")
+        absorb(run, M, S, fam.name)
+    run.coverage_notes["exhaustive_set_comparison"] = "all 0x110000 code points x 6 named sets through RuneShouldBeEncoded, all 256 bytes through ByteShouldBeEncoded"
+    return run.finish("model_checking", "sets: the specification's tables (checked by TLC against the standard's explicit lists) compared with the real sets on ALL 0x110000 code points; "
+                      "derive: every Set/Clear derivation sequence up to the depth over the six named sets and their derivatives, every registry entry fingerprinted after every step; "
+                      "codec: every string up to the bound over {%, hex digit, non-hex letter, member, non-member, 2-/3-/4-byte scalar, DEL} x 10 named and derived sets - the laws are "
+                      "TLC invariants of the specification and the encodings/decodings are replayed byte-exactly")
